@@ -15,7 +15,8 @@ CLAIMS = {
             'selectors, symbolic repeat counts, reference tree builder as oracle',
             'Every well-formed operator skeleton up to the stated number of items (solver-driven case split) with symbolic repeat '
             'counts, under three self-closing styles and format on/off, goes through the real tokenizer, parser, converter, '
-            'transforms and HTML writer; the output must equal the serialised reference tree.', '§3 C01'),
+            'transforms and HTML writer; the output must equal the serialised reference tree. Chains of 6 (thorough 7) elements joined by every sequence of '
+            '> + ^ ^^ ^^^ ^^^^ (plain, in a group, in a repeated group under a parent) extend the depth beyond the skeleton bound.', '§3 C01, §8'),
     'C02': ('bounded symbolic execution (CrossHair/z3): counter kernel with symbolic width/base/count/index, tokenizer recognition '
             'over all short strings, expand() templates with symbolic counts, numbering parameters and maxRepeat',
             'Counter formatting is decided for all widths<=6 and bases/counts<=10^5 symbolically; copy counts, counter inheritance '
@@ -25,7 +26,8 @@ CLAIMS = {
             'and symbolic values injected at the token boundary; reference merge as oracle; character-level value harness',
             'All sequences of up to K attribute mentions (11 kinds x 5 names) with symbolic 1-2 character values under 10 '
             'option/syntax sets; output observed through the documented output.text callback and compared with the reference '
-            'merge; quoted/unquoted/shorthand values also go through the real tokenizer character by character.', '§3 C03'),
+            'merge (option pairs included: case+mapping, case/mapping under jsx, compact+case, reverse+quotes); every mention kind on an element '
+            'repeated through itself, a group or its parent; quoted/unquoted/shorthand values also go through the real tokenizer character by character.', '§3 C03, §8'),
     'C04': ('bounded symbolic execution (CrossHair/z3): `ex{t}` with every short payload through the real tokenizer, token-level '
             'payload placements, wrap-text templates with symbolic lines; reference un-escaper / placement as oracle',
             'Inline text: every Latin-1 payload up to the stated length that closes itself goes through the real tokenizer and must '
@@ -47,7 +49,7 @@ CLAIMS = {
             'Table-exhaustive: for every built-in html/xsl/pug snippet expand(alias) equals expand(definition), also with an added '
             'attribute, text, repeater, self-closing mark or child where the definition is a single element chain; user snippets '
             'with several top-level nodes get alias data on every top-level node and children in the deepest; resolution terminates '
-            'with nesting <= 3 for every table of 3 keys over 9 (cyclic) bodies.', '§3 C14'),
+            'with nesting <= 3 for every table of 3 keys over 9 (cyclic) bodies; a resolution that fails inside a nested definition leaves later resolutions unchanged.', '§3 C14, §8'),
     'C15': ('bounded symbolic execution (CrossHair/z3): C01 operator skeletons rendered by the haml/pug/slim writers against a reference '
             'line writer; decorated templates with a symbolic indent string and payload',
             'All well-formed skeletons up to the stated size x 3 syntaxes must produce exactly one line per element at its depth '
@@ -58,13 +60,15 @@ CLAIMS = {
             'Every well-formed document of up to K events (open, open+attributes, close, void, self-closed, comment/CDATA/PI/text, '
             'script/style) x every integer position: match() is the innermost strictly enclosing element with exact open/close/'
             'attribute ranges, balanced_outward lists all enclosing elements, balanced_inward the first-child chain; comment, CDATA, '
-            'PI, script and attribute-value contents of up to n free characters never contribute or move tags.', '§3 C09'),
+            'PI, script and attribute-value contents of up to n free characters never contribute or move tags. Every ordered forest of 6 (thorough 7) elements with rotating '
+            'leaf kinds extends nesting depth and sibling count beyond the event bound.', '§3 C09, §8'),
     'C10': ('bounded symbolic execution (CrossHair/z3) of the real CSS matcher on stylesheets assembled from solver-chosen events with '
             'recorded ground truth, symbolic integer position; symbolic content holes',
             'Every well-formed stylesheet of up to K events (rules, at-rules, nested rules, semicolon-terminated declarations, comments; '
             'several top-level rules) x every integer position: match() is the innermost declaration/rule with exact ranges, '
             'balanced_outward lists value, declaration and every enclosing rule (content, full), balanced_inward the first-child chain; '
-            'string/comment/parenthesis/selector/value contents of up to n free characters never delimit anything.', '§3 C10'),
+            'string/comment/parenthesis/selector/value contents of up to n free characters never delimit anything. Every ordered forest of 6 (thorough 7) '
+            'nodes extends nesting depth beyond the event bound.', '§3 C10, §8'),
     'C11': ('bounded symbolic execution (CrossHair/z3) of the real extract_abbreviation over all short lines x all integer carets x '
             'option sets, plus templates with concrete valid abbreviations and symbolic left/right context',
             'Consistency clauses: path tree of the real extractor exhausted for every ASCII line up to the stated length, every '
@@ -78,7 +82,7 @@ CLAIMS = {
             '(same event generators as C09/C10), symbolic integer position; symbolic class-token and value-token holes',
             'Every document of up to K events x every integer position: get_open_tag, select_item_html (next/previous), get_css_section '
             'with properties and select_item_css (next/previous) return exactly the recorded tag, attribute, unquoted-value, class-token, '
-            'declaration name/value/value-token/before/after ranges.', '§3 C17'),
+            'declaration name/value/value-token/before/after ranges; the same on every ordered forest of 6 (thorough 7) nodes in both languages.', '§3 C17, §8'),
     'C18': ('bounded symbolic execution (CrossHair/z3) of both real tokenizers over all short strings',
             'Every ASCII string up to the stated length through the real markup and stylesheet tokenizers '
             '(property and value mode); each leaf checks that spans tile the input or a scanner error with an '
@@ -95,7 +99,8 @@ CLAIMS['C20'] = ('bounded symbolic execution (CrossHair/z3) of Config/merged_dat
                  'For every key of the pools (defined only in built-in defaults / also in a type default / also in a syntax default), every '
                  'known syntax of both types plus xhtml and unknown names, and every subset of the overridable layers with arbitrary values: '
                  'the resolved value comes from the most specific layer, other keys keep their built-in value, built-in tables and caller '
-                 'dictionaries are unchanged; the same order is observed through expand() output.', '§3 C20')
+                 'dictionaries are unchanged; the same order is observed through expand() output, also for the second of two calls with independent layer '
+                 'assignments (config/global passed, empty or omitted).', '§3 C20, §8')
 
 CLAIMS['C07'] = ('bounded symbolic execution (CrossHair/z3) of the whole real expand() over all short strings, and over abbreviations assembled from '
                  'solver-chosen multi-character pieces, under 16 configurations',
@@ -115,8 +120,9 @@ CLAIMS['C06'] = ('bounded symbolic execution (CrossHair/z3) with solver-chosen i
                  'user-key pairs; expectation from a reference reader of the definition text',
                  'Table-exhaustive: every key expands to the property/first value (or raw body) read from its own definition, with and without '
                  'scope; every single-word keyword alternative resolves in three letter-case patterns; for every ordered pair of user keys over '
-                 '{q,w,-} the typed key reaches its own snippet (direct-hit shortcut cannot pre-empt it); user snippets replace built-ins.',
-                 '§3 C06')
+                 '{q,w,-} the typed key reaches its own snippet (direct-hit shortcut cannot pre-empt it); user snippets replace built-ins; function keywords '
+                 'resolve by name also after a use with arguments (same abbreviation / earlier call sharing the cache); user raw snippets keep their placeholder texts.',
+                 '§3 C06, §8')
 
 CLAIMS['C08'] = ('bounded model checking over call histories with the solver (CrossHair/z3) choosing history, probe and sharing pattern; real expand() calls, '
                  'snapshots of caller objects and of module-level state',
